@@ -265,6 +265,10 @@ def judge(case, root, cwd, dest, announced, before, after, result):
             flag("refuse-existing", "succeeded", "destination %s existed and no --output-file was given, but the transfer succeeded" % rel(dest))
         if changed:
             flag("refuse-existing", "tree-changed", "destination existed, transfer must fail with an unchanged tree; changed: %r" % [rel(p) for p in changed])
+    if result == ("fail", "TransferRejectedError") and changed:
+        # the receiver refused (existing destination, or the user said no): nothing was announced as written, nothing may change
+        flag("refused-but-wrote", "tree-changed", "the transfer was refused, yet the tree changed: %r" % sorted(
+            "%s %s" % (rel(p), "created" if p not in before else ("removed" if p not in after else "changed")) for p in changed))
     if case["accept"] == "off-no" and (ok or [p for p in changed if p != dest + ".tmp" and not (case["output"] and p == dest)]):
         if ok:
             flag("permission", "no-means-no", "the user answered no but the transfer succeeded")
